@@ -613,4 +613,19 @@ theorem readAll_allocs (max : Nat) : ∀ (k : Nat) (r : Reader),
       · exact readAll_allocs max k _ a ha
     · exact readMessage_allocs max r
 
+theorem foldl_writeStep (h : List (Option Bytes)) : ∀ s : Bytes,
+    h.foldl writeStep s = s ++ (h.filterMap id).flatMap encode := by
+  induction h with
+  | nil => intro s; simp
+  | cons x xs ih =>
+    intro s
+    cases x with
+    | none => simp [writeStep, ih]
+    | some m => simp [writeStep, ih]
+
+theorem writeHistory_eq (h : List (Option Bytes)) :
+    writeHistory h = (h.filterMap id).flatMap encode := by
+  unfold writeHistory
+  rw [foldl_writeStep]; simp
+
 end ConfModel.Delimited
